@@ -89,8 +89,48 @@ def replay(rep):
     return 1 if fail else 0
 
 
+def _bounded_one(args):
+    fn, case, tier, seed = args
+    orc = ORACLES.get(fn)
+    if orc is None:
+        return dict(fn=fn, case=case, cases_run=0, failures=[], error='no executable oracle')
+    rng = random.Random(seed)
+    budget = 240.0 if tier == 'thorough' else 25.0
+    t0 = time.time()
+    n = 0
+    fails = []
+    exhausted = True
+    try:
+        for a in orc.inputs(case, rng, {}, tier):
+            n += 1
+            try:
+                f = orc.check(case, a)
+            except Exception as e:
+                f = 'raised %s: %s' % (type(e).__name__, e)
+            if f:
+                fails.append(dict(args=jsonable(a), failure=f))
+                if len(fails) >= 3:
+                    break
+            if time.time() - t0 > budget:
+                exhausted = False
+                break
+    except Exception as e:
+        return dict(fn=fn, case=case, cases_run=n, failures=fails, error='%s: %s' % (type(e).__name__, e))
+    return dict(fn=fn, case=case, cases_run=n, failures=fails, generator_exhausted=exhausted,
+                secs=round(time.time() - t0, 1))
+
+
+def bounded(req):
+    import multiprocessing
+    tasks = [(x['fn'], x.get('case'), req.get('tier', 'quick'), req.get('seed', 0)) for x in req['targets']]
+    if not tasks:
+        return []
+    with multiprocessing.get_context('fork').Pool(min(16, len(tasks))) as pool:
+        return pool.map(_bounded_one, tasks, chunksize=1)
+
+
 def main():
-    for m in ('oracles_arith', 'oracles_helpers', 'oracles_more'):
+    for m in ('oracles_arith', 'oracles_helpers', 'oracles_more', 'oracles_bounded', 'oracles_join'):
         try:
             importlib.import_module('replay.' + m)
         except ImportError as e:
@@ -103,6 +143,9 @@ def main():
         return 0
     if mode == '--replay':
         return replay(req)
+    if mode == '--bounded':
+        print(json.dumps(bounded(req), default=str))
+        return 0
     return 3
 
 
